@@ -22,6 +22,8 @@ type provProfile struct {
 	wVal                                                                   int  // validator creation / removal
 	keyPool                                                                int  // number of extra consumer keys (default 10)
 	nvExtra                                                                int  // validator ids that may be created later
+	replenish                                                              int64
+	frac                                                                   string
 }
 
 const sec = int64(1000000000)
@@ -46,6 +48,9 @@ func (p *provRunner) deadlines() []int64 {
 				}
 			}
 		}
+	}
+	if c, err := strconv.ParseInt(p.prevG["cand"], 10, 64); err == nil && c < 1000*sec {
+		out = append(out, c)
 	}
 	add(p.prevG["spawnq"])
 	add(p.prevG["removeq"])
@@ -282,6 +287,11 @@ func (p *provRunner) genOne(r *Rng, prof provProfile) string {
 			return fmt.Sprintf("stkunjail v=%d", v)
 		case 2:
 			return "stkend"
+		case 3:
+			if prof.wSlash > 0 && p.unjailedCount() > 2 {
+				return fmt.Sprintf("%s v=%d", []string{"stkunbond", "stktomb"}[r.intn(2)], v)
+			}
+			return "stkend"
 		default:
 			tok := (1 + r.i64n(9)) * 1000000
 			if prof.lowPower {
@@ -400,7 +410,68 @@ func (p *provRunner) genChan(r *Rng, prof provProfile) string {
 	return fmt.Sprintf("chantry ch=%s port=%s cport=%s order=%s ver=%s hops=%s", ch, port, cport, order, ver, hops)
 }
 
-func (p *provRunner) genSlash(r *Rng, prof provProfile) string { return "" }
+// slash packets: mostly on an established channel, for keys that are current / replaced / unknown /
+// somebody else's, with update ids at the boundaries of what the provider issued
+func (p *provRunner) genSlash(r *Rng, prof provProfile) string {
+	var chans [][2]string // channel, consumer
+	for _, e := range splitNE(p.prevG["chan2c"]) {
+		if i := strings.IndexByte(e, ':'); i > 0 {
+			chans = append(chans, [2]string{e[:i], e[i+1:]})
+		}
+	}
+	if len(chans) == 0 {
+		return p.genChan(r, prof)
+	}
+	ch := chans[r.intn(len(chans))]
+	if r.chance(2) {
+		ch[0] = "channel-999"
+	}
+	st := p.prev[ch[1]]
+	// candidate keys
+	var keys []int
+	for _, e := range splitNE(st["valset"]) {
+		f := strings.Split(e, ":")
+		if len(f) == 4 {
+			k, _ := strconv.Atoi(f[1])
+			keys = append(keys, k)
+		}
+	}
+	for _, e := range splitNE(st["byaddr"]) {
+		f := strings.Split(e, ":")
+		k, _ := strconv.Atoi(f[0])
+		keys = append(keys, k)
+	}
+	key := r.intn(prof.nv + prof.nvExtra)
+	if len(keys) > 0 && r.chance(75) {
+		key = keys[r.intn(len(keys))]
+	} else if r.chance(40) {
+		key = p.genKey(r, prof)
+	}
+	vscid, _ := strconv.ParseInt(p.prevG["vscid"], 10, 64)
+	vsc := int64(0)
+	switch r.intn(8) {
+	case 0:
+		vsc = vscid
+	case 1:
+		vsc = vscid + 1 + r.i64n(3)
+	case 2, 3:
+		vsc = 0
+	default:
+		if vscid > 1 {
+			vsc = 1 + r.i64n(vscid-1)
+		}
+	}
+	inf := "dt"
+	if r.chance(12) {
+		inf = []string{"ds", "un"}[r.intn(2)]
+	}
+	power := 1 + r.intn(9)
+	if r.chance(3) {
+		power = 0
+	}
+	p.chanSeq++
+	return fmt.Sprintf("recvslash ch=%s key=%d power=%d vsc=%d inf=%s seq=%d", ch[0], key, power, vsc, inf, p.chanSeq)
+}
 
 // time step of the next block, biased to land exactly on / just before / just after a deadline
 func (p *provRunner) genDt(r *Rng) int64 {
@@ -433,6 +504,9 @@ func genProv(prof provProfile) func(r *Rng, run Runner, n int, tier string) {
 		if prof.withKeys {
 			wk = " withkeys=1"
 		}
+		if prof.replenish != 0 {
+			wk += fmt.Sprintf(" replenish=%d frac=%s", prof.replenish, prof.frac)
+		}
 		run.Do(fmt.Sprintf("init maxvals=%d M=%d epoch=%d unb=%d conns=%d tokens=%s%s", prof.maxvals, prof.M, prof.epoch, prof.unb, prof.conns, strings.Join(toks, ","), wk))
 		for i := 0; i < n; i++ {
 			s := p.genOne(r, prof)
@@ -458,6 +532,10 @@ func init() {
 	hs := provProfile{name: "handshake", nv: 4, maxvals: 4, M: 3, epoch: 2, unb: 10 * sec, conns: 2,
 		wCreate: 14, wUpdate: 10, wRemove: 5, wOpt: 18, wAssign: 2, wStake: 4, wBlock: 22, wChan: 25, topn: false}
 	streams["handshake"] = StreamDef{New: func(t *Trace) Runner { return newProvRunner(t) }, Gen: genProv(hs)}
+	sl := provProfile{name: "slash", nv: 5, nvExtra: 1, maxvals: 5, M: 4, epoch: 2, unb: 15 * sec, keyPool: 5, lowPower: true,
+		replenish: 8 * sec, frac: "0.300000000000000000",
+		wCreate: 5, wUpdate: 5, wRemove: 2, wOpt: 16, wAssign: 10, wStake: 10, wBlock: 26, wChan: 10, wSlash: 30, wVal: 2}
+	streams["slash"] = StreamDef{New: func(t *Trace) Runner { return newProvRunner(t) }, Gen: genProv(sl)}
 	keys := provProfile{name: "keys", nv: 4, nvExtra: 2, maxvals: 5, M: 4, epoch: 2, unb: 12 * sec, keyPool: 5,
 		wCreate: 5, wUpdate: 4, wRemove: 3, wOpt: 14, wAssign: 34, wStake: 3, wBlock: 22, wVal: 9}
 	streams["keys"] = StreamDef{New: func(t *Trace) Runner { return newProvRunner(t) }, Gen: genProv(keys)}
